@@ -125,6 +125,53 @@ CLAIMED = {
         "exercised by the harness, not modelled.",
         "Lean 4 proof on source-generated definitions + oracle in three numba execution modes",
         "DESIGN.md §7 C04"),
+    "C14": (
+        "Machine-checked proofs in exact arithmetic: translating frame content and peak gives cell-identical crops while "
+        "windows stay inside; results are re-anchored additively; the log argument is invariant under adding a constant "
+        "(the minimum moves with it); cyclic translation of the frame cyclically translates the full-frame correlation map "
+        "for both shift kinds and every size; transposition commutes with the zero-padded window and both axes are treated "
+        "alike by masks and refinement. Float32 rounding under cyclic shifts and the transposition of the complete "
+        "evaluation (row-major tie-breaking) are oracle-only.",
+        "Lean kernel + standard axioms; translator; A-FFT / A-FLOAT for the paired-run tolerances.",
+        "Lean 4 proof (exact arithmetic, modular index algebra) + paired differential runs",
+        "DESIGN.md §7 C14"),
+    "C15": (
+        "Partial proof (integer-range logic): frames are promoted to float32/float64 before x - min + 1 is formed (source "
+        "pinned), and for every value of an 8/16-bit dtype (and up to 2^24 for wider ones) the log argument is an integer "
+        "exactly representable in the promoted dtype, so nothing wraps or rounds before the logarithm; uint8/int8 "
+        "counterexamples for in-dtype arithmetic. Equality 'to float32 rounding' of the final results is oracle-only; "
+        "exhaustive over the ten dtypes.",
+        "Lean kernel + standard axioms; translator; promotion table compared with the live NumPy; A-FLOAT.",
+        "Lean 4 proof (finite dtype table + omega) + exhaustive dtype correspondence",
+        "DESIGN.md §7 C15"),
+    "C01": (
+        "Partial proof: the index / centring chain for every size parity (mask, user template, RGBS geometry centred on "
+        "shape//2; ifftshift centres the mask on the evaluated pixel; the upsampling centre ceil(n/2) undoes that shift); "
+        "on the circular frame (any finite abelian group of positions) symmetric mask x symmetric data gives a map "
+        "symmetric about the disk, the correlation with a translate of the mask itself is maximal at the true shift, and the "
+        "centre of mass of a point-symmetric (2r+1)^2 neighbourhood is its centre (refined = centre exactly). NOT proved: "
+        "uniqueness of the maximum for non-matching templates, the 0.01 px and 1.5/upsample float bounds (oracle). Known "
+        "finding D15.",
+        "Lean kernel + standard axioms (Mathlib finite sums over groups); translator; A-FFT; the quantitative bounds are "
+        "decided by the oracle search only.",
+        "Lean 4 proof (partial: group-sum reindexing, reflection of finite sums) + synthetic-disk oracle",
+        "DESIGN.md §7 C01"),
+    "C02": (
+        "Partial proof (logical core only): triangle-inequality bound and maximality at vanishing phases of the phasor sum "
+        "the upsampled DFT maximises; the candidate grid (generated constants) has spacing 1/us and covers at least "
+        "[-1/2, 1/2 - 1/us] for every us >= 2; COM refinement bounded by the clipped radius. The accuracy constants 1 px / "
+        "0.5 px / 1/us + 0.03 px are NOT proved and not provable with what is here; decided by the oracle search only.",
+        "Lean kernel + standard axioms (Mathlib complex norm); translator; empirical constants are oracle-only.",
+        "Lean 4 proof (partial) + rendered-disk oracle with sequences of upsampling factors",
+        "DESIGN.md §7 C02"),
+    "C07": (
+        "Partial proof: get_correlation inverts with the frame's shape and uses ifftshift (source pinned), hence a "
+        "pixel-centred feature is read with the mask centre on that pixel for even, odd and non-square shapes; on the "
+        "circular frame separated disks give centre values linear in brightness with one common slope (brightness order = "
+        "height order). peak_local_max and strict local maximality for non-matching templates are oracle-only.",
+        "Lean kernel + standard axioms; translator; A-FFT, A-EXT (skimage).",
+        "Lean 4 proof (partial) + exact small-shape correspondence + disk-field oracle",
+        "DESIGN.md §7 C07"),
 }
 
 NOT_YET = {}
